@@ -17,6 +17,7 @@ Definition base_name (c : N) : bytes :=
   else if c =? 9 then [80;97;114;115;101]                                     (* Parse *)
   else if c =? 10 then [82;101;102;101;114;101;110;99;101]                    (* Reference *)
   else if c =? 11 then [78;111;110;101;69;114;114;111;114]                     (* NoneError *)
+  else if c =? 12 then [87;114;111;110;103;84;121;112;101]                     (* WrongType *)
   else 63 :: dec_of_N c.
 Fixpoint chain_text (e : perr) : bytes :=
   match e with
@@ -32,10 +33,24 @@ Definition ok_text : bytes := [111; 107].
 (* type name -> type: derived structs by (instantiated) name, hand-written types by name *)
 Fixpoint index_of (n : bytes) (l : list bytes) (i : N) : option N :=
   match l with [] => None | x :: t => if beqb n x then Some i else index_of n t (i + 1) end.
+(* containers on their own, named as in harness/src/modes/typed.rs *)
+Definition container_types : list (bytes * ty) :=
+  [([86; 101; 99; 60; 79; 112; 116; 105; 111; 110; 60; 105; 51; 50; 62; 62], TVec (TOption TI32))  (* Vec<Option<i32>> *);
+   ([86; 101; 99; 60; 80; 114; 105; 109; 105; 116; 105; 118; 101; 62], TVec TPrim)  (* Vec<Primitive> *);
+   ([86; 101; 99; 60; 79; 112; 116; 105; 111; 110; 60; 68; 105; 99; 116; 105; 111; 110; 97; 114; 121; 62; 62], TVec (TOption TDict))  (* Vec<Option<Dictionary>> *);
+   ([86; 101; 99; 60; 79; 112; 116; 105; 111; 110; 60; 86; 101; 99; 60; 79; 112; 116; 105; 111; 110; 60; 105; 51; 50; 62; 62; 62; 62], TVec (TOption (TVec (TOption TI32))))  (* Vec<Option<Vec<Option<i32>>>> *);
+   ([79; 112; 116; 105; 111; 110; 60; 86; 101; 99; 60; 80; 114; 105; 109; 105; 116; 105; 118; 101; 62; 62], TOption (TVec TPrim))  (* Option<Vec<Primitive>> *);
+   ([86; 101; 99; 60; 79; 112; 116; 105; 111; 110; 60; 78; 97; 109; 101; 62; 62], TVec (TOption TName))  (* Vec<Option<Name>> *)].
+Fixpoint assoc_ty (n : bytes) (l : list (bytes * ty)) : option ty :=
+  match l with [] => None | (k, t) :: r => if beqb n k then Some t else assoc_ty n r end.
+
 Definition ty_by_name (n : bytes) : option ty :=
   match struct_by_name gen_schemas n with
   | Some (i, _) => Some (TStruct i)
-  | None => match index_of n typed_hand_names 0 with Some i => Some (THand i) | None => None end
+  | None => match index_of n typed_hand_names 0 with
+            | Some i => Some (THand i)
+            | None => assoc_ty n container_types
+            end
   end.
 
 Definition write_any (E : env) (t : ty) (v : value) : tres (prim * env) :=
